@@ -10,6 +10,13 @@ BASELINE_OFF = ("cd /repo && env -u PYOPENAPI_GEN_VERIF /venv/bin/python -m pyte
 
 # id -> (category, technique, level text, level note, design ref)
 CHECKS = {
+    "C19": ("exploration", "runtime monitoring: metamorphic differential between real generations (rendering and order variants) with manifests read back by introspection",
+            "Each clean document is generated from its JSON, YAML-block, YAML-flow and YAML-with-unquoted-integer-status-keys renderings (no key sorting): the emitted "
+            "trees must be byte-identical and no operation may be skipped. Random permutations of components.schemas, paths and properties are generated as "
+            "separate packages and their normalised manifests (models -> wire key -> kind/required, enum value sets, alias targets, tag clients -> method signatures, "
+            "APIClient properties), read in a fresh interpreter, must equal the unpermuted one.",
+            "Documents are the clean grammar's (no name collisions, acyclic); un-importable packages are C01's matter.",
+            "DESIGN.md §4 C19"),
     "C02": ("exploration", "runtime monitoring: independent reference resolver compared with the real loader's IR and with the imported generated dataclasses, over exhaustively enumerated small schema graphs",
             "graphgen builds every directed multigraph on 2 named schemas (8 edge kinds incl. allOf, per ordered pair and self-pair) x both declaration orders x 3 "
             "naming schemes (unrelated, prefix-of-one-another, property==schema name up to case) with an independent expectation (own + allOf-inherited properties). "
